@@ -114,8 +114,15 @@ def _execute(mod: Any, plan: dict[str, Any]) -> dict[str, Any]:
         from . import world
 
         world.enable_debug_logging()
+    if plan.get("_warnings_error") and mod.PROP != "C20":
+        # process state set by the application (or its test runner): warnings are errors
+        import warnings
+
+        warnings.simplefilter("error")
     try:
         res = mod.execute(plan)
+        if plan.get("_warnings_error"):
+            res["knobs"] = {**(res.get("knobs") or {}), "warnings_as_errors": 1}
         if plan.get("_debug_logging"):
             res.setdefault("knobs", {})
             res["knobs"] = {**(res.get("knobs") or {}), "debug_logging_enabled": 1}
@@ -129,6 +136,8 @@ def _run_seed(mod: Any, seed: int, tier: str, index: int) -> dict[str, Any]:
     plan = mod.make_plan(seed, tier, index)
     if index % 7 == 3:
         plan["_debug_logging"] = True
+    if index % 11 == 5:
+        plan["_warnings_error"] = True
     res = _execute(mod, plan)
     res["plan_digest"] = rng.digest(plan)
     if res.get("violations"):
